@@ -6,3 +6,4 @@ CONSTANTS
   MaxOps = 3
   Big = FALSE
   CheckImpl = FALSE
+  NonAscii = FALSE
